@@ -208,6 +208,16 @@ func zzGraph(pBound, t int, fixed bool) {
 		bad.Wait = append(append(append([]string{}, known[:at]...), "nosuch"), known[at:]...)
 		nd.Assert(r.Run(bad) != nil, "C14/unknown-prerequisite-refused")
 	}
+	// ... and so is a submission that names an unknown sandbox; its NAME stays
+	// free: the same task with a known sandbox is accepted afterwards
+	bad = mk(0)
+	bad.Name, bad.Wait, bad.Sandbox = "ty", nil, "nosuchbox"
+	nd.Assert(r.Run(bad) != nil, "C14/unknown-sandbox-refused")
+	if werr == nil {
+		// (a scope that already failed refuses everything)
+		bad.Sandbox = "sb" + names[0]
+		nd.Assert(r.Run(bad) == nil, "C14/name-of-refused-submission-stays-free")
+	}
 	// refused submissions leave nothing behind: waiting on the manager still
 	// returns (a hang is reported as a deadlock) with the same verdict
 	werr2 := mgr.Wait()
